@@ -17,6 +17,9 @@ def install_all(reg):
     petri_build.install(reg)
     petri_build.install_network(reg)
     petri_build.install_generator(reg)
+    from . import percolate_net
+    percolate_net.install(reg)
+    percolate_net.install_percolate(reg)
     trappist.install(reg)
     trappist.install_models(reg)
     trappist.install_programs(reg)
